@@ -36,11 +36,7 @@ func ibcExprText(e ast.Expr) string {
 	return "?"
 }
 
-<<<<<<< HEAD
-func ibcLeanStrList(xs []string) string {
-=======
 func ibcStrList(xs []string) string {
->>>>>>> agent-ibc
 	var q []string
 	for _, x := range xs {
 		q = append(q, strconv.Quote(x))
@@ -136,13 +132,8 @@ func genIBC(repo string) (string, []string, error) {
 	if !found {
 		return "", nil, fmt.Errorf("no BlockTypeUrls call in cosmos_handler.go")
 	}
-<<<<<<< HEAD
-	fmt.Fprintf(&b, "/-- message types refused at depth ≥ 1 (inside a wrapper) -/\ndef nestedBlocked : List String := %s\n", ibcLeanStrList(blocked[1]))
-	fmt.Fprintf(&b, "/-- message types refused at any depth -/\ndef alwaysBlocked : List String := %s\n", ibcLeanStrList(blocked[0]))
-=======
 	fmt.Fprintf(&b, "/-- message types refused at depth ≥ 1 (inside a wrapper) -/\ndef nestedBlocked : List String := %s\n", ibcStrList(blocked[1]))
 	fmt.Fprintf(&b, "/-- message types refused at any depth -/\ndef alwaysBlocked : List String := %s\n", ibcStrList(blocked[0]))
->>>>>>> agent-ibc
 
 	// ---- IBCMessagesDecorator: handled message types (top level only: it ranges over tx.GetMsgs())
 	lc, err := loadFiles(filepath.Join(repo, "x/lightclient/keeper/ibc_msgs.go"))
@@ -170,11 +161,7 @@ func genIBC(repo string) (string, []string, error) {
 		}
 		return true
 	})
-<<<<<<< HEAD
-	fmt.Fprintf(&b, "/-- message types IBCMessagesDecorator looks at -/\ndef anteHandled : List String := %s\n", ibcLeanStrList(handled))
-=======
 	fmt.Fprintf(&b, "/-- message types IBCMessagesDecorator looks at -/\ndef anteHandled : List String := %s\n", ibcStrList(handled))
->>>>>>> agent-ibc
 	fmt.Fprintf(&b, "/-- does it look inside wrapper messages? -/\ndef anteHandlesNested : Bool := %v\n", recurses)
 
 	// ---- IsCanonicalClientParamsValid
@@ -199,11 +186,7 @@ func genIBC(repo string) (string, []string, error) {
 		}
 		return true
 	})
-<<<<<<< HEAD
-	fmt.Fprintf(&b, "/-- what the loops of IsCanonicalClientParamsValid range over -/\ndef paramsLoopsOver : List String := %s\n", ibcLeanStrList(ranges))
-=======
 	fmt.Fprintf(&b, "/-- what the loops of IsCanonicalClientParamsValid range over -/\ndef paramsLoopsOver : List String := %s\n", ibcStrList(ranges))
->>>>>>> agent-ibc
 	fmt.Fprintf(&b, "def paramsComparesLengths : Bool := %v\n", lenCmp)
 	// expected upgrade path literal in ExpectedCanonicalClientParams
 	fn, ok = pr.funcs["ExpectedCanonicalClientParams"]
@@ -226,9 +209,6 @@ func genIBC(repo string) (string, []string, error) {
 		}
 		return true
 	})
-<<<<<<< HEAD
-	fmt.Fprintf(&b, "def expectedUpgradePath : List String := %s\n", ibcLeanStrList(path))
-=======
 	fmt.Fprintf(&b, "def expectedUpgradePath : List String := %s\n", ibcStrList(path))
 	// ---- three more shapes of x/lightclient the model depends on
 	calls := func(files []string, fn, callee string) (bool, error) {
@@ -277,7 +257,6 @@ func genIBC(repo string) (string, []string, error) {
 		return "", nil, err
 	}
 	fmt.Fprintf(&b, "/-- HandleMsgUpdateClient compares the header's validator set hash -/\ndef updateChecksValidatorSet : Bool := %v\n", v)
->>>>>>> agent-ibc
 	b.WriteString("\nend DymVerif.Gen.IBC\n")
 	return b.String(), notes, nil
 }
